@@ -196,7 +196,8 @@ def arma_estimate(X, P, Q, lag):
     Y.resize(lag, refcheck=False)
     if P <= 4:
         res = arcovar_marple(Y.copy(), P)    #! Eq. (10.12)
-        ar_params = res[0]
+        # arcovar_marple returns its work array: the P coefficients come first
+        ar_params = res[0][0:P]
     else:
         res = arcovar(Y.copy(), P)    #! Eq. (10.12)
         ar_params = res[0]
